@@ -40,7 +40,7 @@ Definition pstatus_eqb (a b : pstatus) : bool :=
 Inductive mode := MOk | MRefuse | MGarbage.
 
 (** lastError: only the class is observable *)
-Inductive errclass := ENone | EConnecting | EReconnecting | EFail.
+Inductive errclass := ENone | EConnecting | EReconnecting | EFail | ENotReady.
 
 Definition err_nonempty (e : errclass) : bool := match e with ENone => false | _ => true end.
 
@@ -75,7 +75,9 @@ Record st := mkSt {
   dset_seen : nat;    (* ghost: identity of the object set that was synchronised last, 0 = none yet *)
   (* environment: all addresses of the backend serve the same core *)
   env_core : nat;     (* the instance that is running now (program_start / nagios_pid), >= 1 *)
-  env_dset : nat      (* the object set it serves *)
+  env_dset : nat;     (* the object set it serves *)
+  env_ready : bool    (* false: the status query is answered with zero rows (the backend is an lmd whose own
+                         backends are not ready yet, "peered partner not ready yet"); all other tables answer *)
 }.
 
 Definition srcs (c : cfg) : list nat := seq 0 (c_nsrc c).
@@ -96,12 +98,12 @@ Definition set_next (c : cfg) (L : list nat) (s : st) : st :=
               || ((nall c <? ec)%Z && (last_online s <=? 0)%Z) in
   mkSt (if drop then Down else st1) EFail (last_online s) ec
        (if drop then false else has_data s) (idling s) (last_query s) (last_update s)
-       nxt (nth nxt L 0%nat) (now s) (main_restart s) (now s) (last_sync s) (attempts s) (core_seen s) (dset_seen s) (env_core s) (env_dset s).
+       nxt (nth nxt L 0%nat) (now s) (main_restart s) (now s) (last_sync s) (attempts s) (core_seen s) (dset_seen s) (env_core s) (env_dset s) (env_ready s).
 
 Definition note_attempt (a : nat) (s : st) : st :=
   mkSt (status s) (lasterr s) (last_online s) (err_count s) (has_data s) (idling s) (last_query s)
        (last_update s) (cur s) (addr s) (now s) (main_restart s) (last_fail s) (last_sync s)
-       (a :: attempts s) (core_seen s) (dset_seen s) (env_core s) (env_dset s).
+       (a :: attempts s) (core_seen s) (dset_seen s) (env_core s) (env_dset s) (env_ready s).
 
 (** peer.go:1426 tryConnection: at most [length L] dials, each to the current address *)
 Fixpoint try_conn (c : cfg) (n : nat) (L : list nat) (modes : list mode) (s : st) : st * option nat :=
@@ -118,7 +120,7 @@ Fixpoint try_conn (c : cfg) (n : nat) (L : list nat) (modes : list mode) (s : st
 
 Definition set_addr (k a : nat) (s : st) : st :=
   mkSt (status s) (lasterr s) (last_online s) (err_count s) (has_data s) (idling s) (last_query s)
-       (last_update s) k a (now s) (main_restart s) (last_fail s) (last_sync s) (attempts s) (core_seen s) (dset_seen s) (env_core s) (env_dset s).
+       (last_update s) k a (now s) (main_restart s) (last_fail s) (last_sync s) (attempts s) (core_seen s) (dset_seen s) (env_core s) (env_dset s) (env_ready s).
 
 (** peer.go:1406 GetConnection *)
 Definition get_conn (c : cfg) (modes : list mode) (s : st) : st * option nat :=
@@ -146,49 +148,65 @@ Definition do_query (c : cfg) (modes : list mode) (s : st) : st * bool :=
 (** peer.go:959 resetErrors *)
 Definition reset_errors (s : st) : st :=
   mkSt Up ENone (now s) 0 (has_data s) (idling s) (last_query s) (last_update s)
-       (cur s) (addr s) (now s) (main_restart s) (last_fail s) (now s) (attempts s) (core_seen s) (dset_seen s) (env_core s) (env_dset s).
+       (cur s) (addr s) (now s) (main_restart s) (last_fail s) (now s) (attempts s) (core_seen s) (dset_seen s) (env_core s) (env_dset s) (env_ready s).
 
 Definition set_last_update (t : Z) (s : st) : st :=
   mkSt (status s) (lasterr s) (last_online s) (err_count s) (has_data s) (idling s) (last_query s)
-       t (cur s) (addr s) (now s) (main_restart s) (last_fail s) (last_sync s) (attempts s) (core_seen s) (dset_seen s) (env_core s) (env_dset s).
+       t (cur s) (addr s) (now s) (main_restart s) (last_fail s) (last_sync s) (attempts s) (core_seen s) (dset_seen s) (env_core s) (env_dset s) (env_ready s).
 
 Definition set_data (d : bool) (s : st) : st :=
   mkSt (status s) (lasterr s) (last_online s) (err_count s) d (idling s) (last_query s)
-       (last_update s) (cur s) (addr s) (now s) (main_restart s) (last_fail s) (last_sync s) (attempts s) (core_seen s) (dset_seen s) (env_core s) (env_dset s).
+       (last_update s) (cur s) (addr s) (now s) (main_restart s) (last_fail s) (last_sync s) (attempts s) (core_seen s) (dset_seen s) (env_core s) (env_dset s) (env_ready s).
 
 (** InitAllTables, success: [p.data.Store(data)] together with program_start / nagios_pid of the new status row *)
 Definition store_data (s : st) : st :=
   mkSt (status s) (lasterr s) (last_online s) (err_count s) true (idling s) (last_query s)
        (last_update s) (cur s) (addr s) (now s) (main_restart s) (last_fail s) (last_sync s) (attempts s)
-       (env_core s) (env_dset s) (env_core s) (env_dset s).
+       (env_core s) (env_dset s) (env_core s) (env_dset s) (env_ready s).
 
 (** environment: the core behind the (reachable or not) backend restarts; [changed]: with another object set *)
 Definition restart (changed : bool) (s : st) : st :=
   mkSt (status s) (lasterr s) (last_online s) (err_count s) (has_data s) (idling s) (last_query s)
        (last_update s) (cur s) (addr s) (now s) (main_restart s) (last_fail s) (last_sync s) (attempts s)
-       (core_seen s) (dset_seen s) (S (env_core s)) (if changed then S (env_core s) else env_dset s).
+       (core_seen s) (dset_seen s) (S (env_core s)) (if changed then S (env_core s) else env_dset s) (env_ready s).
+
+(** environment: the partner behind the backend becomes (not) ready *)
+Definition set_ready (b : bool) (s : st) : st :=
+  mkSt (status s) (lasterr s) (last_online s) (err_count s) (has_data s) (idling s) (last_query s)
+       (last_update s) (cur s) (addr s) (now s) (main_restart s) (last_fail s) (last_sync s) (attempts s)
+       (core_seen s) (dset_seen s) (env_core s) (env_dset s) b.
+
+(** peer.go:909 updateInitialStatus, the status query of a (re)initialisation is answered with zero rows:
+    down, "peered partner not ready yet", [p.data.Store(nil)]; no connection error: no error count, no rotation *)
+Definition not_ready (s : st) : st :=
+  mkSt Down ENotReady (last_online s) (err_count s) false (idling s) (last_query s)
+       (last_update s) (cur s) (addr s) (now s) (main_restart s) (now s) (last_sync s) (attempts s)
+       (core_seen s) (dset_seen s) (env_core s) (env_dset s) (env_ready s).
 
 Definition set_idling (i : bool) (s : st) : st :=
   mkSt (status s) (lasterr s) (last_online s) (err_count s) (has_data s) i (last_query s)
-       (last_update s) (cur s) (addr s) (now s) (main_restart s) (last_fail s) (last_sync s) (attempts s) (core_seen s) (dset_seen s) (env_core s) (env_dset s).
+       (last_update s) (cur s) (addr s) (now s) (main_restart s) (last_fail s) (last_sync s) (attempts s) (core_seen s) (dset_seen s) (env_core s) (env_dset s) (env_ready s).
 
 Definition set_last_query (t : Z) (s : st) : st :=
   mkSt (status s) (lasterr s) (last_online s) (err_count s) (has_data s) (idling s) t
-       (last_update s) (cur s) (addr s) (now s) (main_restart s) (last_fail s) (last_sync s) (attempts s) (core_seen s) (dset_seen s) (env_core s) (env_dset s).
+       (last_update s) (cur s) (addr s) (now s) (main_restart s) (last_fail s) (last_sync s) (attempts s) (core_seen s) (dset_seen s) (env_core s) (env_dset s) (env_ready s).
 
 (** initTable(status): "got an answer, let clients know we are reconnecting" *)
 Definition mark_syncing (s : st) : st :=
   match status s with
   | Pending | Syncing => s
   | _ => mkSt Syncing EReconnecting (last_online s) (err_count s) (has_data s) (idling s) (last_query s)
-              (last_update s) (cur s) (addr s) (now s) (main_restart s) (last_fail s) (last_sync s) (attempts s) (core_seen s) (dset_seen s) (env_core s) (env_dset s)
+              (last_update s) (cur s) (addr s) (now s) (main_restart s) (last_fail s) (last_sync s) (attempts s) (core_seen s) (dset_seen s) (env_core s) (env_dset s) (env_ready s)
   end.
 
 (** peer.go:724 InitAllTables; result: success *)
 Definition init_all (c : cfg) (modes : list mode) (s : st) : st * bool :=
   let s := set_last_update (now s) s in
   let (s1, ok) := do_query c modes s in
-  if ok then (reset_errors (store_data (mark_syncing s1)), true) else (s1, false).
+  if ok then
+    if env_ready s1 then (reset_errors (store_data (mark_syncing s1)), true)
+    else (not_ready s1, false)
+  else (s1, false).
 
 Inductive ures := UOk | UErr | URestart.
 
@@ -197,7 +215,9 @@ Definition update_delta (c : cfg) (modes : list mode) (s : st) : st * ures :=
   let (s1, ok) := do_query c modes s in
   if ok then
     (* peer.go CheckBackendRestarted on the status row, before anything is updated *)
-    if negb (Nat.eqb (core_seen s1) (env_core s1)) then (s1, URestart)
+    (* datastoreset.go:776 a status answer with another number of rows than cached (zero rows: partner not ready) *)
+    if negb (env_ready s1) then (s1, URestart)
+    else if negb (Nat.eqb (core_seen s1) (env_core s1)) then (s1, URestart)
     else if c_fixed c && negb (has_data s1) then (s1, URestart)
     else (set_last_update (now s1) (reset_errors s1), UOk)
   else (s1, UErr).
@@ -260,7 +280,7 @@ Definition client_query (c : cfg) (modes : list mode) (s : st) : st :=
 
 Definition pass (d : Z) (s : st) : st :=
   mkSt (status s) (lasterr s) (last_online s) (err_count s) (has_data s) (idling s) (last_query s)
-       (last_update s) (cur s) (addr s) (now s + d) (main_restart s) (last_fail s) (last_sync s) (attempts s) (core_seen s) (dset_seen s) (env_core s) (env_dset s).
+       (last_update s) (cur s) (addr s) (now s + d) (main_restart s) (last_fail s) (last_sync s) (attempts s) (core_seen s) (dset_seen s) (env_core s) (env_dset s) (env_ready s).
 
 Inductive event :=
 | EInit                       (* updateLoop start: InitAllTables *)
@@ -268,7 +288,8 @@ Inductive event :=
 | ETick (minute : bool)       (* one periodicUpdate *)
 | EPass (d : Z)               (* d milliseconds pass, d > 0 *)
 | EQuery                      (* a client data query *)
-| ERestart (changed : bool).  (* the core behind the backend restarts: program_start / nagios_pid change *)
+| ERestart (changed : bool)   (* the core behind the backend restarts: program_start / nagios_pid change *)
+| EReady (b : bool).          (* the partner starts / stops answering the status query with zero rows *)
 
 Fixpoint set_nth {A} (n : nat) (x : A) (l : list A) : list A :=
   match l, n with
@@ -286,13 +307,14 @@ Definition step (c : cfg) (ms : list mode * st) (e : event) : list mode * st :=
   | EPass d => (modes, pass d s)
   | EQuery => (modes, client_query c modes s)
   | ERestart changed => (modes, restart changed s)
+  | EReady b => (modes, set_ready b s)
   end.
 
 Definition t0 : Z := 1000000000000.
 
 (** NewPeer *)
 Definition init_st : st :=
-  mkSt Pending EConnecting 0 0 false false 0 0 0%nat 0%nat t0 t0 0 0 [] 0%nat 0%nat 1%nat 1%nat.
+  mkSt Pending EConnecting 0 0 false false 0 0 0%nat 0%nat t0 t0 0 0 [] 0%nat 0%nat 1%nat 1%nat true.
 
 Definition run (c : cfg) (modes : list mode) (evs : list event) : list mode * st :=
   fold_left (step c) evs (modes, init_st).
